@@ -106,7 +106,8 @@ Step ==
        [] E.kind = "reply" -> Reply(<<E.a, E.b>>)
        [] E.kind = "tick" -> Tick(E.a)
        [] E.kind = "client" -> Client /\ next = E.i + 1
-       [] E.kind = "init" -> InitElect /\ initi' >= 1 /\ NodeSeq[initi' - 1] = E.a
+       [] E.kind = "init" -> IF phase = "form" THEN InitElect /\ initi' >= 1 /\ NodeSeq[initi' - 1] = E.a
+                             ELSE RejoinInit
        [] OTHER -> FALSE
   /\ (Matches(S', E.st)) = TRUE
   /\ UNCHANGED used
@@ -123,7 +124,7 @@ ModeDev == CASE Mode = "stale-view" -> "Dev_ElectionStaleView"
              [] OTHER -> "-"
 Outcome ==
   /\ E.ev \in {"quiesce", "end"} /\ E.quiet
-  /\ Quiet(S)
+  /\ Quiet(S) /\ PendEligible = {}
   /\ \/ Mode = "good" /\ UNCHANGED used
      \/ Mode # "good" /\ ModeDev \in Devs /\ used' = used \cup {ModeDev}
   /\ UNCHANGED <<S, phase, initi, next, sched>>
@@ -150,7 +151,7 @@ Diag ==
        [] E.kind = "reply" -> Reply(<<E.a, E.b>>)
        [] E.kind = "tick" -> Tick(E.a)
        [] E.kind = "client" -> Client /\ next = E.i + 1
-       [] E.kind = "init" -> InitElect
+       [] E.kind = "init" -> IF phase = "form" THEN InitElect ELSE RejoinInit
        [] OTHER -> FALSE
   /\ (Matches(S', E.st)) = FALSE
   /\ PrintT(<<"DIAG", l, E.kind, E.a, E.b>>)
